@@ -34,6 +34,14 @@ def build(kind, seed):
             tb.write(rng.randint(0, tb.num_rows - 1), rng.randint(0, tb.num_cols - 1), "styled", style=rng.choice([st, st2]))
         tb.set_cell_border(1, 1, ["top", "left"], Border(2.0, RGB(0, 0, 255), "solid"))
         tb.set_cell_border(2, 0, "bottom", Border(1.0, RGB(0, 0, 0), "dashes"), 2)
+    if kind in ("images", "all"):
+        from numbers_parser import BackgroundImage
+        from .props.c15 import tiny_png
+        im1 = doc.add_style(name="Image %d" % seed, bg_image=BackgroundImage(tiny_png(4, 3, (200, 30, 30)), "bg-%d-a.png" % seed))
+        im2 = doc.add_style(bg_image=BackgroundImage(tiny_png(2, 5, (30, 30, 200)), "bg-%d-b.png" % seed), bold=True)
+        tb.write(0, 1, "on image", style=im1)
+        tb.write(tb.num_rows - 1, tb.num_cols - 1, 12.5, style=im2)
+        tb.write(1, 2, "again", style=im1)
     if kind in ("merges", "all") and tb.num_rows >= 4 and tb.num_cols >= 4:
         tb.merge_cells("B2:C3")
         tb.merge_cells(["A4:B4"])
@@ -76,7 +84,7 @@ def build(kind, seed):
     return doc
 
 
-KINDS = ["plain", "multi", "styles", "merges", "formats", "geometry", "all", "large"]
+KINDS = ["plain", "multi", "styles", "merges", "formats", "geometry", "all", "large", "images"]
 
 
 def save_generated(scratch, n, seed, kinds=None):
